@@ -190,6 +190,41 @@ Qed.
 
 End SWITCH.
 
+(* C07, the classic switch as a whole: exactly one of -- an early error in a
+   case value; the first matching case's body and nothing else; or, when no
+   case matches, the default body if there is one, else nothing *)
+Inductive switch_outcome (fr : node -> ctx -> ctx * option err) (sw : node) (l : list node) (c : ctx) : ctx * bool * option err * bool -> Prop :=
+| so_first l1 ch l2 c1 c2 e :
+    l = l1 ++ ch :: l2 -> no_match sw l1 c c1 -> classic_verdict sw ch c1 false = (c2, true, e, false) ->
+    switch_outcome fr sw l c (let '(c', e') := fr ch c2 in (c', true, e', false))
+| so_none c' :
+    no_match sw l c c' -> switch_outcome fr sw l c (c', false, None, false)
+| so_early l1 ch l2 c1 c2 ok e :
+    l = l1 ++ ch :: l2 -> no_match sw l1 c c1 -> classic_verdict sw ch c1 false = (c2, ok, e, true) ->
+    switch_outcome fr sw l c (c2, ok, e, true).
+
+Theorem switch_classic_outcome fr sw l : forall c,
+  switch_outcome fr sw l c (switch_classic fr sw l c false).
+Proof.
+  induction l as [|ch l IH]; intro c.
+  - cbn [switch_classic]. apply so_none. constructor.
+  - rewrite switch_classic_cons.
+    destruct (classic_verdict sw ch c false) as [[[c1 ok1] e1] ea1] eqn:V.
+    destruct ea1.
+    + apply (so_early fr sw (ch :: l) c [] ch l c c1 ok1 e1); [reflexivity|constructor|exact V].
+    + destruct ok1.
+      * apply (so_first fr sw (ch :: l) c [] ch l c c1 e1); [reflexivity|constructor|exact V].
+      * pose proof (IH c1) as IHc. destruct IHc as [l1 ch' l2 ca cb e El Hn Hv|c' Hn|l1 ch' l2 ca cb ok e El Hn Hv].
+        -- rewrite El.
+           apply (so_first fr sw (ch :: l1 ++ ch' :: l2) c (ch :: l1) ch' l2 ca cb e); [reflexivity| |exact Hv].
+           econstructor; [exact V|exact Hn].
+        -- apply so_none. econstructor; [exact V|exact Hn].
+        -- rewrite El.
+           apply (so_early fr sw (ch :: l1 ++ ch' :: l2) c (ch :: l1) ch' l2 ca cb ok e); [reflexivity| |exact Hv].
+           econstructor; [exact V|exact Hn].
+Qed.
+
+
 (* the default body runs only when nothing matched, and only one of them *)
 Lemma first_default_spec l d : first_default l = Some d -> typ d = typeDefault /\ In d l.
 Proof.
